@@ -56,11 +56,12 @@ AdmitAll(tg, lvl, mod, sh) == TRUE
 (***************************************************************************)
 \* quick: lists of length <= 2, every Duplicate pair, five specifications
 Cfgs_C13q == { Cfg(Wr(5, 2, 3), "file", 0, 0, SpecInfo), Cfg(Wr(3, 0, 5), "both", 2, 6, SpecInfo),
-               Cfg(Wr(0, 5, 0), "pw", 1, 3, SpecOff) }
+               Cfg(Wr(0, 5, 0), "pw", 1, 3, SpecOff), Cfg(Wr(5, 1, 4), "stdout", 0, 0, SpecInfo) }
 \* thorough: lists of length <= 3
 Cfgs_C13t == { Cfg(Wr(ca, cb, cs), prim, 0, 0, SpecInfo) :
                  ca \in {5}, cb \in {0, 2, 5}, cs \in {0, 3, 5}, prim \in {"file", "both"} }
-             \cup { Cfg(Wr(1, 4, 1), "pw", 0, 0, SpecInfo), Cfg(Wr(0, 1, 4), "none", 0, 0, SpecInfo) }
+             \cup { Cfg(Wr(1, 4, 1), "pw", 0, 0, SpecInfo), Cfg(Wr(0, 1, 4), "none", 0, 0, SpecInfo),
+                    Cfg(Wr(5, 2, 3), "stdout", 0, 0, SpecInfo), Cfg(Wr(5, 2, 3), "stderr", 3, 6, SpecInfo) }
 Dups_t    == {0, 1, 3, 6}
 
 (***************************************************************************)
@@ -71,9 +72,12 @@ Cfgs_C13gen ==
     { Cfg(Wr(5, 2, 3), "file", 2, 3, sp) : sp \in Specs4 }
     \cup { Cfg(Wr(5, 0, 5), "pw", 6, 0, sp) : sp \in Specs4 }
     \cup { Cfg(Wr(5, 5, 1), "both", 1, 5, sp) : sp \in Specs4 }
+    \cup { Cfg(Wr(5, 2, 3), "stdout", 0, 0, sp) : sp \in Specs4 }
+    \cup { Cfg(Wr(5, 2, 3), "stderr", 6, 6, sp) : sp \in {SpecInfo, SpecMTrace} }
 Cfgs_C13genq ==
     { Cfg(Wr(5, 2, 3), "file", 2, 3, sp) : sp \in Specs4 }
     \cup { Cfg(Wr(5, 5, 1), "both", 1, 5, sp) : sp \in {SpecInfo, SpecMTrace} }
+    \cup { Cfg(Wr(5, 2, 3), "stdout", 0, 0, SpecMTrace), Cfg(Wr(5, 2, 3), "stderr", 6, 6, SpecInfo) }
 Cfgs_C13gent ==
     { Cfg(Wr(5, cb, cs), prim, 2, 3, sp) :
         cb \in {0, 1, 2, 3, 4, 5}, cs \in {0, 1, 2, 3, 4, 5}, prim \in {"file"}, sp \in {SpecInfo} }
@@ -117,18 +121,22 @@ PresIdx(mod, sh) == (IF mod = "" THEN 0 ELSE 4) + (IF sh.hf THEN 2 ELSE 0) + (IF
 \* tied to them so that each value still meets every format function over the nine rotations
 AdmitC20q(tg, lvl, mod, sh) ==
     LET x == ClsIdx(sh.cls) + PresIdx(mod, sh) IN
-    /\ lvl = (x % 5) + 1
-    /\ (sh.kv = 2) = ((x \div 5) % 2 = 0)
-    /\ tg.brace = (x % 3 # 0)
+    IF sh.rec THEN ~tg.brace /\ lvl \in {2, 3}      \* recursive records: plain target (few outputs)
+    ELSE /\ lvl = (x % 5) + 1
+         /\ (sh.kv = 2) = ((x \div 5) % 2 = 0)
+         /\ tg.brace = (x % 3 # 0)
 \* thorough: level in full as well
 AdmitC20t(tg, lvl, mod, sh) ==
     LET x == ClsIdx(sh.cls) + PresIdx(mod, sh) IN
-    /\ (sh.kv = 2) = ((x + lvl) % 2 = 0)
-    /\ tg.brace = ((x + lvl) % 3 # 0)
+    IF sh.rec THEN ~tg.brace
+    ELSE /\ (sh.kv = 2) = ((x + lvl) % 2 = 0)
+         /\ tg.brace = ((x + lvl) % 3 # 0)
 \* design-level check of the fan-out: tiny configuration space, recursion included
 Cfgs_C20mc == { [FrameCfg(0, FALSE, "direct", "", 1) EXCEPT !.primary = prim, !.dupe0 = de, !.dupo0 = do] :
                   prim \in {"file", "pw", "both", "none"}, de \in {0, 2, 6}, do \in {0, 6} }
 Shapes_C20mc == {IdShape, RecShape}
+TargetsC20mc == TargetsDup \cup {Brace(<<"A", "A">>), Brace(<<"X", "B">>)}
+Dups_C20mc   == {0, 2, 6}
 
 (***************************************************************************)
 (* scenario generation: one line per distinct state (history hidden by the  *)
